@@ -138,6 +138,11 @@ struct Encoding<
       return status;
     else if (!IsUnbounded && size > Length)
       return ErrorStatus::InvalidContainerLength;
+    // An unbounded buffer accepts any count its size member can represent: a
+    // larger count would be truncated when it is stored below.
+    else if (size > static_cast<::nop::SizeType>(
+                        std::numeric_limits<SizeType>::max()))
+      return ErrorStatus::InvalidContainerLength;
 
     for (::nop::SizeType i = 0; i < size; i++) {
       status = Encoding<ValueType>::Read(&(*value)[i], reader);
@@ -204,6 +209,12 @@ struct Encoding<LogicalBuffer<BufferType, SizeType, IsUnbounded>,
     }
 
     const ::nop::SizeType size = size_bytes / sizeof(ValueType);
+    // An unbounded buffer accepts any count its size member can represent: a
+    // larger count would be truncated when it is stored below.
+    if (size > static_cast<::nop::SizeType>(
+                   std::numeric_limits<SizeType>::max()))
+      return ErrorStatus::InvalidContainerLength;
+
     value->size() = static_cast<SizeType>(size);
     return reader->Read(value->begin(), value->end());
   }
